@@ -1,5 +1,5 @@
 import Driver.Util
-import SqliteDissect.Model.Database
+import SqliteDissect.Model.Wal
 
 namespace Driver.Db
 open SqliteDissect SqliteDissect.Model Driver
@@ -57,6 +57,7 @@ def parseCfg (toks : List String) : Config :=
     | ["strict", v] => { c with strict := v = "1" }
     | ["size", v] => { c with givenSize := v.toNat? }
     | ["frames", v] => { c with frames := v.toNat?.getD c.frames }
+    | ["walsize", v] => { c with givenWalSize := v.toNat? }
     | _ => c) {}
 
 /-- full dump of a database file: Database.__init__, then the page census, then every root's
@@ -80,6 +81,74 @@ def dumpDb (cfg : Config) (file : Buf) (withTrees : Bool) : String :=
         else []
       "ok " ++ joinWith "\x02" (base ++ [cs] ++ trees)
 
+def pairList (l : List (Nat × Nat)) : String := joinWith "," (l.map fun e => s!"{e.1}:{e.2}")
+
+def b01 (b : Bool) : String := if b then "1" else "0"
+
+def showFlags (f : HeaderFlags) : String :=
+  s!"cc{b01 f.changeCounterIncremented},sz{b01 f.sizeModified},ft{optS toString f.modFirstTrunk},fp{optS toString f.modFreelistPages},lr{optS toString f.modLargestRoot},ck{b01 f.cookieModified},sf{b01 f.formatModified},te{b01 f.encodingModified},uv{b01 f.userVersionModified}"
+
+/-- sections of one version of a history -/
+def showVersion (cfg : Config) (ver : Version) (v : VersionIf) (withTrees : Bool) : List String :=
+  let k := ver.number
+  let census := versionCensus ver v cfg.frames
+  let cs := match census with
+    | .ok d => s!"V{k}.census=" ++ joinWith "," (d.map fun pn => s!"{pn.1}:{pn.2}")
+    | .error e => s!"V{k}.census=" ++ errStr e
+  let trees := if withTrees ∧ census.isOk then
+      ver.schema.rootNumbers.map fun r =>
+        match getBTreeRoot v cfg.frames r with
+        | .ok t => s!"V{k}.tree{r}=" ++ showTree t
+        | .error e => s!"V{k}.tree{r}=" ++ errStr e
+    else []
+  [ s!"V{k}.hdr=" ++ showHdr ver.hdr,
+    s!"V{k}.size={ver.dbSize}",
+    s!"V{k}.ps={ver.pageSize}",
+    s!"V{k}.enc={ver.encoding}",
+    s!"V{k}.updated=" ++ natList ver.updated,
+    s!"V{k}.pvi=" ++ pairList ver.pvi,
+    s!"V{k}.pfi=" ++ pairList ver.pfi,
+    s!"V{k}.mod=h{b01 ver.hdrModified}r{b01 ver.rootModified}s{b01 ver.schemaModified}f{b01 ver.freelistModified}p{b01 ver.ptrmapModified}",
+    s!"V{k}.flags=" ++ showFlags ver.flags,
+    s!"V{k}.freelist=" ++ joinWith "|" (ver.freelist.map fun t => s!"{t.number}:{t.next}:[{natList t.leaves}]"),
+    s!"V{k}.flnums=" ++ natList ver.freelistNumbers,
+    s!"V{k}.ptrmap=" ++ joinWith "|" (ver.ptrmap.map fun p =>
+        s!"{p.number}:{p.nEntries}:" ++ joinWith "," (p.entries.map fun e => s!"{e.pageNumber}/{e.ptype}/{e.parent}")),
+    s!"V{k}.schema=" ++ joinWith "|" (ver.schema.entries.map showSchemaRow),
+    s!"V{k}.schemapages=" ++ joinWith "," (ver.schema.pages.map fun pn => s!"{pn.1}:{pn.2}"),
+    s!"V{k}.roots=" ++ natList ver.schema.rootNumbers,
+    s!"V{k}.updbt=" ++ natList ver.updatedBTree,
+    s!"V{k}.tree1=" ++ showTree ver.rootTree,
+    cs ] ++ trees
+
+def showWal (w : Wal) : List String :=
+  [ s!"wal.hdr=m{w.hdr.magic},fv{w.hdr.formatVersion},ps{w.hdr.pageSize},cs{w.hdr.checkpointSeq},s1{w.hdr.salt1},s2{w.hdr.salt2},c1{w.hdr.checksum1},c2{w.hdr.checksum2}",
+    s!"wal.nframes={w.nFrames}",
+    "wal.frames=" ++ joinWith "|" (w.frames.map fun f =>
+      s!"{f.index}:p{f.hdr.pageNumber}:sz{f.hdr.sizeAfterCommit}:s{f.hdr.salt1}/{f.hdr.salt2}:c{f.hdr.checksum1}/{f.hdr.checksum2}:cr{optS toString f.commitRecordNumber}"),
+    "wal.invalid=" ++ joinWith "|" (w.invalid.map fun f => s!"{f.index}:p{f.hdr.pageNumber}:sz{f.hdr.sizeAfterCommit}:s{f.hdr.salt1}/{f.hdr.salt2}"),
+    "wal.invidx=" ++ joinWith "," (w.invalidIndices.map fun e => s!"{e.1}:{e.2.1}-{e.2.2}") ]
+
+/-- Database(db), WriteAheadLog(wal), VersionHistory(db, wal): the first failing constructor's
+error class, or every version's sections -/
+def dumpHistory (cfg : Config) (dbFile : Buf) (walFile : Option Buf) (withTrees : Bool) : String :=
+  match openDatabase cfg dbFile with
+  | .error e => "db:" ++ errStr e
+  | .ok (db, dbv) =>
+    let walR : Py (Option Wal) := match walFile with
+      | none => .ok none
+      | some wf => (openWal cfg.givenWalSize wf).map some
+    match walR with
+    | .error e => "wal:" ++ errStr e
+    | .ok w =>
+      match versionHistory cfg db dbv w with
+      | .error e => "vh:" ++ errStr e
+      | .ok vs =>
+        let walSecs := match w with
+          | some w => showWal w
+          | none => []
+        "ok " ++ joinWith "\x02" (walSecs ++ [s!"nversions={vs.length}"] ++ vs.flatMap fun (ver, v) => showVersion cfg ver v withTrees)
+
 def handle (toks : List String) : IO (Option String) := do
   match toks with
   | "db.dump" :: path :: rest =>
@@ -88,6 +157,13 @@ def handle (toks : List String) : IO (Option String) := do
   | "db.open" :: path :: rest =>
     let data ← IO.FS.readBinFile path
     pure (some (dumpDb (parseCfg rest) (Buf.ofByteArray data) false))
+  | "vh.dump" :: path :: walPath :: rest =>
+    let data ← IO.FS.readBinFile path
+    let wdata ← (if walPath = "-" then pure none else do
+      let d ← IO.FS.readBinFile walPath
+      pure (some (Buf.ofByteArray d)))
+    let cfg := parseCfg rest
+    pure (some (dumpHistory cfg (Buf.ofByteArray data) wdata (¬ rest.contains "trees=0")))
   | _ => pure none
 
 end Driver.Db
